@@ -7,6 +7,7 @@ import (
 	"net/http"
 	"sort"
 	"strings"
+	"verif.local/engine/vcontext"
 
 	mcp "trpc.group/trpc-go/trpc-mcp-go"
 	"verif.local/engine/explore"
@@ -28,6 +29,8 @@ func init() {
 		Doc: "GET#1 registered; GET#2 handler || a SendNotification that waits for nothing (it straddles the replacement); afterwards stream #2 must be open, registered and reachable"})
 	RegisterScenario(&Scenario{Name: "c11/straddle-stalled", Run: func(p []int, m []vsched.ChoicePoint) explore.Outcome { return c11Run(p, "straddle-stalled") },
 		Doc: "as straddle, with the reader of stream #1 stalled so that the early send blocks inside its write while the stream is replaced"})
+	RegisterScenario(&Scenario{Name: "c11/straddle-roots", Run: func(p []int, m []vsched.ChoicePoint) explore.Outcome { return c11Run(p, "straddle-roots") },
+		Doc: "GET#1 registered; GET#2 handler || an early ListRoots (abandoned once GET#2 is up) || the client drops stream #1; afterwards stream #2 must be open, registered and reachable"})
 	RegisterScenario(&Scenario{Name: "c11/triple", Run: func(p []int, m []vsched.ChoicePoint) explore.Outcome { return c11Run(p, "triple") },
 		Doc: "GET#1 registered; GET#2 || GET#3 opened concurrently; sends at quiescence must reach the surviving stream"})
 	RegisterCheck("C11", func(c *Ctx) {
@@ -41,6 +44,7 @@ func init() {
 		c.DFSBoth("c11/triple", explore.Bounds{Preempt: c.Pick(3, 5), Dev: 1}, 1)
 		c.DFSBoth("c11/straddle", explore.Bounds{Preempt: c.Pick(3, 5), Dev: 1}, 1)
 		c.DFSBoth("c11/straddle-stalled", explore.Bounds{Preempt: c.Pick(3, 5), Dev: 1}, 1)
+		c.DFSBoth("c11/straddle-roots", explore.Bounds{Preempt: c.Pick(3, 4), Dev: 1, MaxExec: c.Pick(8000, 300000)}, 1)
 	})
 }
 
@@ -137,6 +141,18 @@ func c11Run(prefix []int, mode string) explore.Outcome {
 			vsched.Go("early-sender", func() {
 				srv.SendNotification(sid, "notifications/message", map[string]interface{}{"n": 7})
 			})
+		}
+		if mode == "straddle-roots" {
+			// a server-issued request that waits for nothing, while the client drops stream #1: its write
+			// on the old stream may fail; that failure must not cost the session its new stream
+			srvctx := hx.SessionCtx(srv, sid)
+			vsched.Go("early-roots", func() {
+				ctx, cancel := vcontext.WithCancel(srvctx)
+				defer cancel()
+				vsched.Go("roots-abandon", func() { g2.Wait("await GET#2 headers"); cancel() })
+				srv.ListRoots(ctx)
+			})
+			vsched.Go("close1", func() { x1.CloseFromClient() })
 		}
 		if mode == "close1" {
 			vsched.Go("close1", func() { x1.CloseFromClient() })
